@@ -211,7 +211,9 @@ type c13SchemaGen struct {
 	hasOwnTag      bool
 	hasEmbedded    bool
 	hasForeign     bool
-	inElem         int // > 0 while generating the element type of a []struct
+	// hasNonASCIIName: some field's Go name has a letter outside ASCII
+	hasNonASCIIName bool
+	inElem          int // > 0 while generating the element type of a []struct
 }
 
 var c13IntBits = []int{0, 8, 16, 32, 64}
@@ -306,8 +308,55 @@ func c13KeyStyle(style int, words []string) string {
 	}
 }
 
+// c13UpperInitials are upper-case letters outside ASCII (one to four bytes of
+// UTF-8, Latin-1, Latin Extended, Greek, Cyrillic, Armenian, Deseret): a Go
+// identifier starting with one of them is exported, exactly like one starting
+// with A-Z.
+var c13UpperInitials = []string{"Ä", "É", "Ñ", "Ö", "Ü", "Ø", "Þ", "Ç", "Š", "Ł", "Ω", "Σ", "Δ", "Д", "Ж", "Я", "Ա", "Ǆ", "Ⅎ", "𐐀"}
+
+// c13LowerLetters are lower-case (or caseless) letters outside ASCII that may
+// follow the initial of a Go identifier.
+var c13LowerLetters = []string{"é", "ñ", "ß", "ø", "ω", "д", "ï", "ə", "世", "ʼ", "𐐨"}
+
+// c13GoNameForm spells the Go NAME of a field (never its document key, which
+// is given by the tags alone) in one of the forms a Go identifier of an
+// exported field may take. form 0 is the plain ASCII name.
+func c13GoNameForm(nr *fw.Rand, words []string) (string, int) {
+	base := gen.GoName(words)
+	switch x := nr.Intn(100); {
+	case x < 84:
+		return base, 0
+	case x < 90:
+		// non-ASCII upper-case initial in front of the usual name: ÄMaxConn
+		return fw.Pick(nr, c13UpperInitials) + base, 1
+	case x < 95:
+		// ... followed by a lower-case letter: ÄmaxConn
+		return fw.Pick(nr, c13UpperInitials) + gen.LowerCamel(words), 2
+	case x < 98:
+		// ASCII initial, non-ASCII letter further on: MaxConné
+		return base + fw.Pick(nr, c13LowerLetters), 3
+	default:
+		// both: ÜMaxConnß
+		return fw.Pick(nr, c13UpperInitials) + base + fw.Pick(nr, c13LowerLetters), 4
+	}
+}
+
+// c13NonASCIIName reports whether a Go field name has a character outside
+// ASCII, and whether its first character is one.
+func c13NonASCIIName(name string) (some, initial bool) {
+	for i := 0; i < len(name); i++ {
+		if name[i] >= 0x80 {
+			return true, name[0] >= 0x80
+		}
+	}
+	return false, false
+}
+
 func (g *c13SchemaGen) structNode(depth int) *c13Node {
 	r := g.r
+	// the spelling of the Go names is drawn from a stream of its own, derived
+	// from (not drawn from) the case's stream
+	nr := fw.NewRand(fw.Mix(r.State(), 0xc13a5c11))
 	nf := r.Range(1, 6)
 	if depth == 0 {
 		nf = r.Range(2, 8)
@@ -339,6 +388,7 @@ func (g *c13SchemaGen) structNode(depth int) *c13Node {
 			f.skip = true
 			f.node = c13Leaf(c13Int, 0)
 			f.tag = reflect.StructTag(`dials:"-"`)
+			f.name, _ = c13GoNameForm(nr, f.words)
 			fields = append(fields, f)
 			continue
 		}
@@ -347,6 +397,7 @@ func (g *c13SchemaGen) structNode(depth int) *c13Node {
 			style = r.Intn(3)
 		}
 		f.node = g.fieldNode(depth)
+		ownName := false
 		// (not inside slice elements: there the struct is not pointerified,
 		// and go-toml fills an embedded struct VALUE whose own key is absent
 		// from its parent's table - promotion as a fallback - which the
@@ -362,6 +413,7 @@ func (g *c13SchemaGen) structNode(depth int) *c13Node {
 			g.hasEmbedded = true
 			if r.Chance(55) {
 				style = 2 // lowerCamel: equals the Go name when case is ignored
+				ownName = true
 			} else if len(f.words) == 1 {
 				// a single word is the name in every style; add a word so
 				// snake/kebab spell it differently from the Go name
@@ -379,6 +431,14 @@ func (g *c13SchemaGen) structNode(depth int) *c13Node {
 				style = r.Intn(2)
 			}
 			f.node.sig = "embedded-" + f.node.sig
+		}
+		if !ownName {
+			// (an embedded member keyed by its own Go name keeps the ASCII
+			// name, so that name and key stay equal when case is ignored)
+			var form int
+			if f.name, form = c13GoNameForm(nr, f.words); form != 0 {
+				g.hasNonASCIIName = true
+			}
 		}
 		f.dialsKey = c13KeyStyle(style, f.words)
 		for k := 0; k < 4; k++ {
